@@ -1,7 +1,8 @@
 /* Lock-step harness for src/work_queue.c (C17), built on include/mpsc_fifo.h.
  * params: [0] drain budget.
  * ops: (1, a) = work_queue_push of item a, 2 <= a <= WQ_NODES;
- *      (2, a) = the same push marked "fast-forward" (see below).  Items are the
+ *      (10 + j, a), j = 0..7 = the same push marked "fast-forward" with table
+ *      entry j (see below); (2, a) = (10, a).  Items are the
  *      mpsc nodes of one static array: nodes[i] is named i+1 in the trace, so
  *      NULL = 0, the fifo's initial stub = 1, item a = &nodes[a-1]; every node's
  *      data field initially holds its own name (that is what get_work hands
@@ -19,7 +20,9 @@
  * runs dry, so in a session that never drains they grow without bound, and no
  * test can afford 2^32 real pushes.  When a push marked (2, a) returns
  * START_WORKING, the fresh worker -- before its first get_work -- adds
- * FFAMT = 2^32 - 3 to BOTH in_count and out_count in one step (one scheduling
+ * FFAMT = ffamt[j] = 2^k - 3 (k = 32 20 16 31 24 8 12 36 for j = 0..7: the
+ * counters then pass 2^k - 2, 2^k - 1, 2^k, 2^k + 1 ... as the next items are
+ * pushed / handed out) to BOTH in_count and out_count in one step (one scheduling
  * point, event  tid 2 919 FFAMT).  This is exactly the state the public API
  * reaches when the fresh worker performs FFAMT times (push one more item; get
  * one item): in_count = i + FFAMT, out_count = FFAMT, same number of queued
@@ -44,10 +47,20 @@ __attribute__((no_sanitize_thread, noinline)) static long item_data(work_queue_i
   return rt_canon((uint64_t)(uintptr_t)it->data);
 }
 
-#define FFAMT ((int64_t)4294967293LL)   /* 2^32 - 3 */
-__attribute__((no_sanitize_thread, noinline)) static void h_wq_ffwd(work_queue_t* q) {
-  q->in_count += FFAMT;
-  q->out_count += FFAMT;
+/* 2^k - 3, k = 32 20 16 31 24 8 12 36 (same table as ffamt in coq/WorkQueue.v); values stay below 2^40, the
+ * range rt_canon prints verbatim */
+static const int64_t ffamt[8] = { 4294967293LL, 1048573LL, 65533LL, 2147483645LL, 16777213LL, 253LL, 4093LL,
+                                  68719476733LL };
+/* table index of a marked push, -1 = plain push, -2 = not an op */
+static int ff_index(long opc) {
+  if (opc == 1) return -1;
+  if (opc == 2) return 0;
+  if (opc >= 10 && opc < 18) return (int)(opc - 10);
+  return -2;
+}
+__attribute__((no_sanitize_thread, noinline)) static void h_wq_ffwd(work_queue_t* q, int64_t amt) {
+  q->in_count += amt;
+  q->out_count += amt;
 }
 
 static void body(int t) {
@@ -55,9 +68,10 @@ static void body(int t) {
     long a = cur->ops[t][k][1];
     int r = work_queue_push(&wq, &nodes[a - 1]);
     rt_event(k + 1, K_RET, r);
-    if (r == WORK_QUEUE_START_WORKING && cur->ops[t][k][0] == 2) {
-      rt_point(2, K_EV, FFAMT);   /* scheduling point; the additions belong to the same grant */
-      h_wq_ffwd(&wq);
+    int j = ff_index(cur->ops[t][k][0]);
+    if (r == WORK_QUEUE_START_WORKING && j >= 0) {
+      rt_point(2, K_EV, ffamt[j]);   /* scheduling point; the additions belong to the same grant */
+      h_wq_ffwd(&wq, ffamt[j]);
     }
     if (r == WORK_QUEUE_START_WORKING) {
       for (;;) {
@@ -76,8 +90,7 @@ static void h_run_case(hcase_t* c) {
   for (int t = 0; t < c->nthreads; t++)
     for (int k = 0; k < c->nops[t]; k++) {
       long a = c->ops[t][k][1];
-      long opc = c->ops[t][k][0];
-      if ((opc != 1 && opc != 2) || a < 2 || a > WQ_NODES) { printf("-1\n"); return; }
+      if (ff_index(c->ops[t][k][0]) == -2 || a < 2 || a > WQ_NODES) { printf("-1\n"); return; }
     }
   /* exactly what work_queue_init / mpsc_fifo_init do, with the stub taken from
    * the node array instead of calloc */
